@@ -98,7 +98,7 @@ theorem src_run_with_signal :
 /-! ### Non-vacuity and rejection examples -/
 
 /-- All four ports filled while a handler is open, then kill wins. -/
-example : traceNoSnap 0 [.spawn none none true, .resume ⟨[], .ok⟩, .pollSpawn true, .poll, .resume ⟨[], .ok⟩,
+example : traceNoSnap 0 [.spawn none none true false true, .resume ⟨[], .ok⟩, .pollSpawn true, .poll, .resume ⟨[], .ok⟩,
       .send 1, .poll, .send 2, .supArrive (.started 9), .stop none, .kill, .resume ⟨[], .tick⟩, .poll] =
     [.enter .preStart .none, .tick .preStart, .exit .preStart .ok, .spawnRet .ok,
      .enter .postStart .none, .sendRet false 1 true, .tick .postStart, .exit .postStart .ok,
@@ -106,7 +106,7 @@ example : traceNoSnap 0 [.spawn none none true, .resume ⟨[], .ok⟩, .pollSpaw
      .killRet false true, .cancelled .handle, .join .ok] := by decide
 
 /-- Stop outranks a queued supervision event and a queued message; the open handler finishes first. -/
-example : traceNoSnap 0 [.spawn none none true, .resume ⟨[], .ok⟩, .pollSpawn true, .poll, .resume ⟨[], .ok⟩,
+example : traceNoSnap 0 [.spawn none none true false true, .resume ⟨[], .ok⟩, .pollSpawn true, .poll, .resume ⟨[], .ok⟩,
       .send 1, .poll, .send 2, .supArrive (.started 9), .stop (some "r"), .resume ⟨[], .ok⟩, .poll] =
     [.enter .preStart .none, .tick .preStart, .exit .preStart .ok, .spawnRet .ok,
      .enter .postStart .none, .sendRet false 1 true, .tick .postStart, .exit .postStart .ok,
@@ -114,7 +114,7 @@ example : traceNoSnap 0 [.spawn none none true, .resume ⟨[], .ok⟩, .pollSpaw
      .tick .handle, .exit .handle .ok, .enter .postStop .none] := by decide
 
 /-- Supervision before messages. -/
-example : traceNoSnap 0 [.spawn none none true, .resume ⟨[], .ok⟩, .pollSpawn true, .poll,
+example : traceNoSnap 0 [.spawn none none true false true, .resume ⟨[], .ok⟩, .pollSpawn true, .poll,
       .send 1, .supArrive (.started 9), .resume ⟨[], .ok⟩, .poll, .resume ⟨[], .ok⟩, .poll] =
     [.enter .preStart .none, .tick .preStart, .exit .preStart .ok, .spawnRet .ok,
      .enter .postStart .none, .sendRet false 1 true, .supArrive (.started 9), .tick .postStart,
